@@ -108,7 +108,7 @@ def run(tier, seed):
 
     def shard(k):
         trace = os.path.join(wd, f"trace{k}.ndjson")
-        harness(["determ", "--out", trace, "--seed", seed * 1000 + k, "--scenarios", 4 if quick else 8, "--base", 4 * (k % 2), "--frames", 100 if quick else 600])
+        harness(["determ", "--out", trace, "--seed", seed * 1000 + k, "--scenarios", 4 if quick else 8, "--base", 4 * (k % 2), "--frames", 100 if quick else 600, "--edge", 2 if quick else 6])
         return (trace,) + validate(trace, f"t{k}")
 
     res = parallel([mc] + [lambda k=k: shard(k) for k in range(shards)])
@@ -140,7 +140,7 @@ def run(tier, seed):
     chk.cov["traces_validated_against_impl"] = runs
     chk.cov["rule"] = (f"{shards} shards x {4 if quick else 8} scenarios (48K/128K: ROM boot with a two-block tape started at a random frame; tape inserted with the "
                        "autoload snapshot and fast loading enabled, the tape stopped (requests served by the fast-load trap) or playing from the start "
-                       f"(real-time load); a program that programs and reads back the AY and reads the Kempston and keyboard/EAR ports every frame; random key presses at frame boundaries) x {100 if quick else 600} frames x 20 drivings: FrameCount(1) twice (repeatability), random FrameCount(n) partitions, "
+                       f"(real-time load); a program that programs and reads back the AY and reads the Kempston and keyboard/EAR ports every frame; random key presses at frame boundaries; plus programs whose jump to the fast-load trap address is the very instruction during which a frame ends, or one a few T-states beside it) x {100 if quick else 600} frames x 20 drivings: FrameCount(1) twice (repeatability), random FrameCount(n) partitions, "
                        "Max mode, breakpoints every k instructions with resume (k random) and after every instruction (so that a stop coincides with every other per-instruction event), FrameCount(n) with breakpoint stops (twice), a different way of driving for every call (twice), sound off, AY off, both switched at run time every four frames, audio never drained, tape asset "
                        "with 1-byte reads, 7-byte reads with Ok(0) at EOF, a real file, gzip; digest = registers + clock + all RAM + screen and border "
                        "buffers + border colour + paging; audio stream compared where the drain policy is the same. Asset clause: "
